@@ -24,7 +24,7 @@ def run(ctx):
            rule="one evaluation = one successful real execution of (operation, path relation); distinct pairs counted; refusals that "
                 "change nothing are listed under skipped",
            states=st["states"], transitions=st["transitions"], traces_validated_against_impl=st["traces"],
-           operations=summ["ops"], skipped=summ.get("skipped", []), monitor_binding_drift=st["drift"], exhaustive=True)
+           operations=summ["ops"], skipped=summ.get("skipped", []), monitor_binding_drift=st["drift"], staged_protocol_inclusion=st.get("staged"), exhaustive=True)
     for r in okrows[:3]:
         ev.sample({k: r[k] for k in ("op", "cfg", "n", "diff", "verdict")})
     ev.sample(sample)
